@@ -588,9 +588,9 @@ func c15GenLock(t *rapid.T, api string) *c15Lock {
 }
 
 var (
-	c15DirPool  = []string{"templates", "templates", "templates", "files", "crds", "docs", "templates/sub", "files/dir/deep", ".hidden", "templates/.hid", "ünï dir", "a/b/c", "UPPER", "conf.d"}
+	c15DirPool  = []string{"templates", "templates", "templates", "files", "crds", "docs", "templates/sub", "files/dir/deep", ".hidden", "templates/.hid", "ünï dir", "a/b/c", "UPPER", "conf.d", "templates.d", "chartsx", "templates/charts", "files/templates"}
 	c15BasePool = []string{"x.yaml", "y.tpl", "_helpers.tpl", "NOTES.txt", ".dot", ".dot.yaml", "ü.bin", "sp ace.txt", "UPPER", "a.b.c", "-dash", "名前.txt", "emoji😀", "tab\tname",
-		"README.md", "LICENSE", "Chart.yaml", "values.yaml", ".helmignore.bak", "data.tgz", "x.prov", "trail.", "~tilde", "#hash", "a'b\"c", "new\nline", "$x", "%41", "*star?", "[br]", ".x"}
+		"README.md", "LICENSE", "Chart.yaml", "values.yaml", ".helmignore.bak", "data.tgz", "x.prov", "trail.", "~tilde", "#hash", "a'b\"c", "new\nline", "$x", "%41", "*star?", "[br]", ".x", "templates.txt", "Chart.lock.bak", "values.yaml.orig", "..data", "...", "charts.txt"}
 )
 
 var c15Reserved0 = map[string]bool{"Chart.yaml": true, "Chart.lock": true, "values.yaml": true, "values.schema.json": true, "requirements.yaml": true, "requirements.lock": true, ".helmignore": true, "charts": true}
